@@ -278,6 +278,7 @@ type sysB struct {
 	lim, lim2 flowcontrols.UpstreamLimiter
 	cancel    context.CancelFunc
 	cur       string // current kind of schema "s": mif1 mif2 mif0 tb exempt absent
+	strat     string // its strategy field ("" local globalCount): not a limit, editing it must not touch the accounting
 	other     bool
 	epoch     int
 	reqs      []request
@@ -319,6 +320,9 @@ func (s *sysB) apply() {
 	case "exempt":
 		sch = append(sch, exempt("s"))
 	}
+	for i := range sch {
+		sch[i].Strategy = proxyv1alpha1.LimitStrategy(s.strat)
+	}
 	if s.other {
 		sch = append(sch, mif("other", 1))
 	}
@@ -349,6 +353,11 @@ func specB() xstate.Spec {
 					evs = append(evs, "sync "+k)
 				}
 			}
+			for _, st := range []string{"", "local", "globalCount"} {
+				if st != s.strat && s.cur != "absent" {
+					evs = append(evs, "strategy "+st)
+				}
+			}
 			evs = append(evs, "toggle-other", "exhaust-other", "exhaust-other-cluster")
 			return evs
 		},
@@ -363,6 +372,13 @@ func specB() xstate.Spec {
 				if s.limit() >= 0 && !wasMIF {
 					s.epoch++ // the schema became a max-in-flight schema again
 				}
+			case "strategy":
+				// same type, same limit: the requests in flight stay counted (no new epoch)
+				s.strat = ""
+				if len(f) > 1 {
+					s.strat = f[1]
+				}
+				s.apply()
 			case "toggle-other":
 				s.other = !s.other
 				s.apply()
@@ -477,7 +493,7 @@ func specB() xstate.Spec {
 					fc.Release()
 				}
 			}
-			return fmt.Sprint(s.cur, s.other, open, free)
+			return fmt.Sprint(s.cur, s.strat, s.other, open, free)
 		},
 		Close: func(si interface{}) {
 			s := si.(*sysB)
